@@ -845,7 +845,8 @@ fn check_cold_twin(res: &mut HRes, live: &Arc<FixtureDatabase>, log: &[(String, 
     // which conftests lost their cache entry (close / eviction)?
     // documents the scan / the history never indexed and the editor merely looked at: their records exist in the long-lived
     // index only (workspace-level answers - the unused list, symbols - mention them; no per-document answer does)
-    let opened_only: Vec<&String> = reopened.iter().filter(|f| { let p = root.join(f.as_str()); !cold.file_cache.contains_key(&p) && !cold.file_definitions.contains_key(&p) && !cold.imports.contains_key(&p) }).collect();
+    // (a later edit of such a document that does not parse leaves its text in the cold twin's cache, and still nothing in its index)
+    let opened_only: Vec<&String> = reopened.iter().filter(|f| { let p = root.join(f.as_str()); !cold.file_definitions.contains_key(&p) && !cold.imports.contains_key(&p) && !cold.usages.contains_key(&p) }).collect();
     // the index itself (as multisets): queries, closes of unmodified documents and evictions do not add, drop or duplicate records
     {
         let strip = |m: MapSnapT| -> MapSnapT {
